@@ -107,6 +107,9 @@ pub fn run(world: &World, ctx: &mut Ctx) -> Option<Value> {
     ctx.ev.extra.insert("grammar_rule_pairs".into(), json!(pairs.len()));
     ctx.ev.extra.insert("cases_per_pair".into(), json!(n));
     for (gi, rule) in pairs {
+        // rules that reach stack operations get three times the cases: their failures need
+        // a specific shape (which construct fails after which stack operation)
+        let n = if gi.uses_stack && gi.ir.rule_reaches_stack(&gi.rules[rule].0) && gi.g.family() != "slice" { n * 3 } else { n };
         if let Some(v) = tape_cases(ctx, gi, rule, n, 48, case) {
             return Some(v);
         }
